@@ -26,16 +26,18 @@ import io
 import json
 import math
 import os
+import pathlib
 import tempfile
 from collections import Counter
 from fractions import Fraction
 
 import mido
+import numpy as np
 
 import partitura
 from partitura.io.exportmidi import save_performance_midi
 from partitura.io.importmidi import load_performance_midi
-from partitura.performance import Performance, PerformedPart
+from partitura.performance import Performance, PerformedNote, PerformedPart
 
 from pbt.core import Outcome, SubCheck, SutRaised, call
 from pbt.gen import c06_perf as G
@@ -56,6 +58,8 @@ ASSUMPTIONS = [
 
 MILLION = 10 ** 6
 HALF = Fraction(1, 2)
+# documented defaults of a performed note / of the exporter for absent keys
+DEF_TRACK, DEF_CHANNEL, DEF_VELOCITY = 0, 1, 60
 
 
 # ---------------------------------------------------------------------------
@@ -63,12 +67,19 @@ HALF = Fraction(1, 2)
 # ---------------------------------------------------------------------------
 
 
-def tick_range(t, ppq, mpq):
-    """(lo, hi, near_half, tie) of the rounded tick of time t (float seconds)."""
+def tick_range(t, ppq, mpq, single_precision=False):
+    """(lo, hi, near_half, tie) of the rounded tick of time t (float seconds).
+
+    ``single_precision``: t is a numpy float32 taken from a note array; the product is then computed in
+    single precision (four roundings of 2^-24 each), so the tie zone is 3e-7 * (1 + x) instead of 1e-9 * (1 + x)."""
     x = Fraction(t) * MILLION * ppq / mpq
     fl = math.floor(x)
     r = x - fl
-    tol = Fraction(1, 10 ** 9) * (1 + abs(x))
+    tol = (Fraction(3, 10 ** 7) if single_precision else Fraction(1, 10 ** 9)) * (1 + abs(x))
+    if single_precision and tol >= Fraction(1, 4):
+        # every integer that is the rounding of some value in [x - tol, x + tol]
+        lo, hi = math.ceil(x - tol - HALF), math.floor(x + tol + HALF)
+        return (max(lo, 0), hi, True, True)
     if abs(r - HALF) <= tol:
         return (fl, fl + 1, True, True)
     n = fl if r < HALF else fl + 1
@@ -131,17 +142,24 @@ def default_mpq(bpm):
     return int(q)
 
 
-def load(spec, data, tmpdir, live_object=None):
+def load(spec, data, tmpdir, live_object=None, fnz=False):
     """Load MIDI bytes through the API / io variant named in the spec."""
     kw = dict(default_bpm=spec["default_bpm"], merge_tracks=spec["merge_load"])
     if spec["api"] == "generic" or spec["io"] == "path":
         path = os.path.join(tmpdir, "load.mid")
         with open(path, "wb") as f:
             f.write(data)
+        if spec.get("path_type", "str") == "pathlib":
+            path = pathlib.Path(path)
         if spec["api"] == "generic":
+            gkw = dict(kw)
+            if "pedal_threshold" in spec:
+                gkw["pedal_threshold"] = spec["pedal_threshold"]
+            if fnz:
+                gkw["first_note_at_zero"] = True
             try:
                 with contextlib.redirect_stdout(io.StringIO()):
-                    return call(partitura.load_performance, path, **kw)
+                    return call(partitura.load_performance, path, **gkw)
             except SutRaised as e:
                 if "NotSupportedFormatError" not in e.kind:
                     raise
@@ -154,12 +172,67 @@ def load(spec, data, tmpdir, live_object=None):
     return call(load_performance_midi, mido.MidiFile(file=io.BytesIO(data)), **kw)
 
 
+def fnz_applies(spec, F):
+    """first_note_at_zero is requested through load_performance and the first performed part has a note
+    (the option is documented for the first note of the first part; a part without notes is not judged)."""
+    if spec["api"] != "generic" or not spec.get("first_note_at_zero", False):
+        return False
+    content = [tr for tr in F["tracks"] if tr["notes"] or tr["controls"] or tr["programs"]]
+    return bool(content) and bool(content[0]["notes"])
+
+
 # ---------------------------------------------------------------------------
 # F vs L : the file as read by the reference vs what partitura loaded
 # ---------------------------------------------------------------------------
 
 
-def compare_loaded(o, F, perf, merge_load, strict_tracks, tempo_sorted):
+def compare_shifted_controls(o, tr, pp, file_seconds, shift):
+    """Controls of the first part after first_note_at_zero (remove_silence_from_performed_part): per
+    (number, channel) every control at or after the first onset is kept, shifted; at most one more control
+    may appear, at time 0, and if a control lies before the first onset it carries the value then in force.
+    Streams holding two controls on one tick are not judged (their order is not defined in seconds)."""
+    groups_e, groups_g = {}, {}
+    for (t, num, val, ch) in tr["controls"]:
+        groups_e.setdefault((num, ch), []).append((t, val))
+    for c in pp.controls:
+        groups_g.setdefault((c["number"], c["channel"]), []).append((c["time"], c["value"]))
+    if set(groups_e) != set(groups_g):
+        o.add("import:first-note-at-zero-controls-differ", reason="control streams appeared or vanished", got=sorted(groups_g), expected=sorted(groups_e))
+        return
+    for key in sorted(groups_e):
+        exp = sorted(groups_e[key])
+        if len(set(t for t, _ in exp)) != len(exp):
+            if "first-note-at-zero:control-stream-with-equal-ticks" not in o.excluded:
+                o.excluded.append("first-note-at-zero:control-stream-with-equal-ticks")
+            continue
+        kept = [(file_seconds(t) - shift, v) for t, v in exp if file_seconds(t) >= shift]
+        before = [v for t, v in exp if file_seconds(t) < shift]
+        got = sorted(groups_g[key])
+        rest = list(got)
+        missing = []
+        for (t, v) in kept:
+            hit = [g for g in rest if g[1] == v and close(g[0], t)]
+            if hit:
+                rest.remove(hit[0])
+            else:
+                missing.append((float(t), v))
+        bad_extra = [g for g in rest if not close(g[0], 0)]
+        at_zero = [g for g in rest if close(g[0], 0)]
+        wrong_state = bool(before) and bool(at_zero) and at_zero[0][1] != before[-1]
+        lost_state = bool(before) and not at_zero and not any(close(t, 0) for t, _ in kept)
+        if missing or bad_extra or len(at_zero) > 1 or wrong_state or lost_state:
+            o.add(
+                "import:first-note-at-zero-controls-differ",
+                number_channel=key,
+                file_ticks_values=exp[:8],
+                shift=float(shift),
+                got_seconds_values=[(float(t), v) for t, v in got][:8],
+                missing=missing[:4],
+                value_in_force_at_first_onset=before[-1] if before else None,
+            )
+
+
+def compare_loaded(o, F, perf, merge_load, strict_tracks, tempo_sorted, fnz=False, pedal_threshold=None):
     content = [tr for tr in F["tracks"] if tr["notes"] or tr["controls"] or tr["programs"]]
     if not isinstance(perf, Performance):
         o.add("import:not-a-performance", got=type(perf).__name__)
@@ -169,12 +242,27 @@ def compare_loaded(o, F, perf, merge_load, strict_tracks, tempo_sorted):
         o.add("import:parts-do-not-match-file-tracks", part_tracks=[pp.track for pp in pps], file_content_tracks=[tr["index"] for tr in content])
         return
     by_track = dict((pp.track, pp) for pp in pps)
-    seconds = F["seconds"]
+    file_seconds = F["seconds"]
     assigned = {}
     det = dict(tempo_track_order_sorted=tempo_sorted, merge_load=merge_load)
+    if pedal_threshold is not None and pps and pps[0].sustain_pedal_threshold != pedal_threshold:
+        o.add("import:pedal-threshold-not-set", got=pps[0].sustain_pedal_threshold, expected=pedal_threshold)
+    if fnz and pps and pps[0] is not by_track[content[0]["index"]]:
+        o.add("import:first-part-is-not-first-content-track", first_part_track=pps[0].track)
+        return
     for rank, tr in enumerate(content):
         pp = by_track[tr["index"]]
         fi = tr["index"]
+        # first_note_at_zero: notes, controls and programs of the FIRST part are shifted by its first onset
+        # (signatures and other meta events are documented not to move); the times of the later parts are
+        # not judged in that mode (load_performance is documented for "the first note")
+        shifted = fnz and rank == 0
+        judge_seconds = not fnz or rank == 0
+        shift = file_seconds(min(n["on"] for n in tr["notes"])) if shifted else Fraction(0)
+
+        def seconds(tick, shift=shift):
+            return max(file_seconds(tick) - shift, Fraction(0))
+
         if pp.ppq != F["ppq"]:
             o.add("import:ppq-wrong", got=pp.ppq, expected=F["ppq"])
         # ---- notes
@@ -209,9 +297,12 @@ def compare_loaded(o, F, perf, merge_load, strict_tracks, tempo_sorted):
             if keys != sorted(keys):
                 o.add("import:ids-wrong", file_track=fi, by_id=keys[:10], reason="ids not in order of (onset, pitch, offset, channel, track)")
         # ---- controls, programs
-        gotc = [(c["time_tick"], c["number"], c["value"], c["channel"]) for c in pp.controls]
-        if Counter(gotc) != Counter(tr["controls"]):
-            o.add("import:controls-differ", file_track=fi, got=sorted(gotc)[:8], expected=sorted(tr["controls"])[:8], fields="tick, number, value, channel")
+        if shifted:
+            compare_shifted_controls(o, tr, pp, file_seconds, shift)
+        else:
+            gotc = [(c["time_tick"], c["number"], c["value"], c["channel"]) for c in pp.controls]
+            if Counter(gotc) != Counter(tr["controls"]):
+                o.add("import:controls-differ", file_track=fi, got=sorted(gotc)[:8], expected=sorted(tr["controls"])[:8], fields="tick, number, value, channel")
         gotp = [(p["time_tick"], p["program"], p["channel"]) for p in pp.programs]
         if Counter(gotp) != Counter(tr["programs"]):
             o.add("import:programs-differ", file_track=fi, got=sorted(gotp)[:8], expected=sorted(tr["programs"])[:8], fields="tick, program, channel")
@@ -231,15 +322,20 @@ def compare_loaded(o, F, perf, merge_load, strict_tracks, tempo_sorted):
         expm = [(t, attrs_key(a)) for t, a in tr["meta_other"]]
         if Counter(gotm) != Counter(expm):
             o.add("import:meta-events-differ", file_track=fi, got=sorted(gotm)[:6], expected=sorted(expm)[:6])
-        for lst in (pp.controls, pp.programs, pp.key_signatures, pp.time_signatures, pp.meta_other):
+        for lst, moves in ((pp.controls, True), (pp.programs, True), (pp.key_signatures, False), (pp.time_signatures, False), (pp.meta_other, False)):
+            if shifted and lst is pp.controls:
+                continue  # rebuilt without ticks by the silence removal; compared above
             for c in lst:
                 if c.get("type") == "end_of_track":
                     continue
-                e = seconds(c["time_tick"])
+                e = seconds(c["time_tick"]) if moves else file_seconds(c["time_tick"])
                 if not close(c["time"], e):
                     bad_sec.append(dict(field="time", tick=c["time_tick"], got=float(c["time"]), expected=float(e)))
-        if bad_sec:
-            o.add("import:seconds-wrong", file_track=fi, examples=bad_sec[:4], tempo_map=F["tempo_map"][:6], **det)
+        if not judge_seconds:
+            if "first-note-at-zero:seconds-of-later-parts" not in o.excluded:
+                o.excluded.append("first-note-at-zero:seconds-of-later-parts")
+        elif bad_sec:
+            o.add("import:seconds-wrong", file_track=fi, examples=bad_sec[:4], tempo_map=F["tempo_map"][:6], first_note_at_zero_shift=float(shift), **det)
         for lst in (pp.key_signatures, pp.time_signatures, pp.meta_other):
             for c in lst:
                 if c["track"] not in (fi, rank):
@@ -287,6 +383,30 @@ def _meta_dicts(q, track_of_sel):
     return ks, ts, mo
 
 
+def build_part(q, build):
+    """(PerformedPart, times_are_single_precision) from a part description, in the way named by ``build``."""
+    controls = [dict(c) for c in q["controls"]]
+    programs = [dict(p) for p in q["programs"]]
+    if build == "note_array" and q["notes"]:
+        # the route of decode_performance / PerformedPart.from_note_array: numpy scalars, float32 seconds
+        omit = q.get("na_omit", [])
+        fields = [("onset_sec", "f4"), ("duration_sec", "f4"), ("pitch", "i4"), ("velocity", "i4")]
+        fields += [(f, "i4") for f in ("track", "channel") if f not in omit]
+        rows = []
+        for n in q["notes"]:
+            row = [n["note_on"], n["note_off"] - n["note_on"], n["midi_pitch"], n["velocity"]]
+            row += [n[f] for f in ("track", "channel") if f not in omit]
+            rows.append(tuple(row))
+        pp = call(PerformedPart.from_note_array, np.array(rows, dtype=fields))
+        pp.controls, pp.programs = controls, programs
+        return pp, True
+    if build == "pnote":
+        notes = [call(PerformedNote, dict(n)) for n in q["notes"]]
+    else:
+        notes = [dict(n) for n in q["notes"]]
+    return call(PerformedPart, notes, controls=controls, programs=programs), False
+
+
 def oracle_roundtrip(spec):
     o = Outcome()
     try:
@@ -310,40 +430,74 @@ def _oracle_roundtrip(spec, o):
     o.cls("io:" + spec["io"])
     o.cls("has-empty-part", spec["empty_part_at"] is not None)
 
-    pps = []
+    build = spec.get("build", "dict")
+    unique = spec.get("unique", True)
+    sanitized = kind == "performance" and unique
+    o.cls("build:" + build)
+    pps, f32 = [], []
     for q in spec["parts"]:
-        pps.append(
-            call(
-                PerformedPart,
-                [dict(n) for n in q["notes"]],
-                controls=[dict(c) for c in q["controls"]],
-                programs=[dict(p) for p in q["programs"]],
-            )
-        )
+        pp, is32 = build_part(q, build)
+        pps.append(pp)
+        f32.append(is32)
     if kind == "performance":
-        data = call(Performance, pps)
-        # track numbers after Performance made them unique: any bijection onto 0..k-1 is accepted here
+        arg = pps[0] if spec.get("perf_arg", "list") == "single" and len(pps) == 1 else pps
+        o.cls("performance-from-single-part-argument", arg is not pps)
+        o.cls("ensure-unique-tracks-off", not unique)
+        data = call(Performance, arg) if unique else call(Performance, arg, ensure_unique_tracks=False)
+    elif kind == "ppart":
+        data = pps[0]
+    else:
+        las = spec.get("list_as", "list")
+        o.cls("list-given-as:" + las)
+        data = pps if las == "list" else (tuple(pps) if las == "tuple" else (pp for pp in pps))
+    if sanitized:
+        # track numbers after Performance made them unique: any bijection onto 0..k-1 is accepted here; an
+        # absent "track" key counts as the documented default track 0
         mapping = {}
         for i, (q, pp) in enumerate(zip(spec["parts"], pps)):
             for lst_spec, lst in ((q["notes"], pp.notes), (q["controls"], pp.controls), (q["programs"], pp.programs)):
                 for a, b in zip(lst_spec, lst):
-                    mapping.setdefault((i, a["track"]), set()).add(b["track"])
+                    mapping.setdefault((i, a.get("track", DEF_TRACK)), set()).add(b["track"])
         images = [sorted(v) for v in mapping.values()]
         flat = sorted(x for v in images for x in v)
         if any(len(v) != 1 for v in images) or flat != list(range(len(mapping))):
-            o.add("performance:track-numbers-not-made-unique", mapping=sorted((list(k), sorted(v)) for k, v in mapping.items()))
+            o.add(
+                "performance:track-numbers-not-made-unique",
+                mapping=sorted((list(k), sorted(v)) for k, v in mapping.items()),
+                control_without_track_key=any("track" not in c for q in spec["parts"] for c in q["controls"]),
+            )
             return o
-    elif kind == "ppart":
-        data = pps[0]
-    else:
-        data = pps
-    tracks = sorted(set(n["track"] for pp in pps for n in pp.notes))
+
+    # ---------------- the performance as stated by the spec (defaults: track 0, channel 1, velocity 60)
+    def trk(spec_item, live_item):
+        return live_item["track"] if sanitized else spec_item.get("track", DEF_TRACK)
+
+    x_notes, x_controls, x_programs = [], [], []  # per part
+    for q, pp, is32 in zip(spec["parts"], pps, f32):
+        xn = []
+        for a, b in zip(q["notes"], pp.notes):
+            t_on, t_off = a["note_on"], a["note_off"]
+            if is32:  # the original times are the single-precision values of the note array
+                on32 = np.float32(t_on)
+                t_on, t_off = float(on32), float(np.float32(on32 + np.float32(t_off - a["note_on"])))
+            xn.append(dict(track=trk(a, b), channel=a.get("channel", DEF_CHANNEL), pitch=a["midi_pitch"], velocity=a.get("velocity", DEF_VELOCITY), note_on=t_on, note_off=t_off, f32=is32))
+        x_notes.append(xn)
+        x_controls.append([dict(track=trk(a, b), channel=a.get("channel", DEF_CHANNEL), number=a["number"], value=a["value"], time=a["time"]) for a, b in zip(q["controls"], pp.controls)])
+        x_programs.append([dict(track=trk(a, b), channel=a["channel"], program=a["program"], time=a["time"]) for a, b in zip(q["programs"], pp.programs)])
+    o.cls("note-without-optional-keys", any(len(n) < 6 for q in spec["parts"] for n in q["notes"]))
+    o.cls("control-without-track-and-channel-keys", any("track" not in c for q in spec["parts"] for c in q["controls"]))
+
+    tracks = sorted(set(e["track"] for lst in (x_notes, x_controls, x_programs) for part in lst for e in part))
+    note_tracks = set(e["track"] for part in x_notes for e in part)
     k = len(tracks)
-    if tracks != list(range(k)) or k == 0:
-        o.excluded.append("tracks-not-0-to-k-1")
+    if k == 0:
+        o.excluded.append("no-track-at-all")
         return o
     o.cls("multi-track", k >= 2)
     o.cls("multi-part", len(pps) >= 2)
+    o.cls("track-numbers-with-gaps", tracks != list(range(k)))
+    o.cls("track-without-notes", len(note_tracks) < k)
+    o.cls("part-without-notes-with-controls", any(not xn and (xc or xp) for xn, xc, xp in zip(x_notes, x_controls, x_programs)))
 
     def track_of_sel(sel):
         return tracks[sel % k]
@@ -354,19 +508,19 @@ def _oracle_roundtrip(spec, o):
     o.cls("has-signatures-or-meta", any(pp.key_signatures or pp.time_signatures or pp.meta_other for pp in pps))
 
     # ---------------- E: what must be in the file
-    def ft(track):  # file track
-        return 0 if spec["merge_save"] else track
+    def ft(track):  # file track: the tracks are written in increasing order of their numbers
+        return 0 if spec["merge_save"] else tracks.index(track)
 
     near = tie = False
     e_notes = []
     idx = 0
-    for pp in pps:
-        for n in pp.notes:
-            a = tick_range(n["note_on"], ppq, mpq)
-            b = tick_range(n["note_off"], ppq, mpq)
+    for xn in x_notes:
+        for n in xn:
+            a = tick_range(n["note_on"], ppq, mpq, n["f32"])
+            b = tick_range(n["note_off"], ppq, mpq, n["f32"])
             near = near or a[2] or b[2]
             tie = tie or a[3] or b[3]
-            e_notes.append(dict(track=n["track"], channel=n["channel"], pitch=n["midi_pitch"], velocity=n["velocity"], on=a[:2], off=b[:2], idx=idx))
+            e_notes.append(dict(track=n["track"], channel=n["channel"], pitch=n["pitch"], velocity=n["velocity"], on=a[:2], off=b[:2], idx=idx))
             idx += 1
     o.cls("near-half-tick", near)
     o.cls("exact-half-tick-tie", tie)
@@ -411,7 +565,9 @@ def _oracle_roundtrip(spec, o):
         live = None
         if spec["io"] == "path":
             path = os.path.join(tmp, "saved.mid")
-            ret = call(save_performance_midi, data, path, **kw)
+            as_pathlib = spec.get("path_type", "str") == "pathlib"
+            o.cls("path-given-as-pathlib", as_pathlib)
+            ret = call(save_performance_midi, data, pathlib.Path(path) if as_pathlib else path, **kw)
             raw = open(path, "rb").read()
         elif spec["io"] == "fileobj":
             buf = io.BytesIO()
@@ -467,15 +623,15 @@ def _oracle_roundtrip(spec, o):
 
         exp_c, exp_p, exp_k, exp_t, exp_m = [], [], [], [], []
         extras = Counter()
-        for pp in pps:
-            for c in pp.controls:
+        for pp, xn, xc, xp in zip(pps, x_notes, x_controls, x_programs):
+            for c in xc:
                 exp_c.append(((ft(c["track"]), c["channel"], c["number"], c["value"]), tick_range(c["time"], ppq, mpq)[:2]))
-            for p in pp.programs:
-                exp_p.append(((ft(p["track"]), p["channel"], p["program"]), tick_range(p["time"], ppq, mpq)[:2]))
-            if not pp.programs:
-                used = set((c["channel"], c["track"]) for c in pp.controls) | set((n["channel"], n["track"]) for n in pp.notes)
-                for ch, trk in used:
-                    extras[(ft(trk), ch, 0)] += 1
+            for p_ in xp:
+                exp_p.append(((ft(p_["track"]), p_["channel"], p_["program"]), tick_range(p_["time"], ppq, mpq)[:2]))
+            if not xp:
+                used = set((c["channel"], c["track"]) for c in xc) | set((n["channel"], n["track"]) for n in xn)
+                for ch, trk_ in used:
+                    extras[(ft(trk_), ch, 0)] += 1
             for c in pp.key_signatures:
                 name = R.key_name(c["fifths"], c.get("mode") == "minor")
                 exp_k.append(((ft(c["track"]), name), tick_range(c["time"], ppq, mpq)[:2]))
@@ -501,9 +657,57 @@ def _oracle_roundtrip(spec, o):
         if any(tr["problems"] for tr in Fl["tracks"]):
             o.excluded.append("import-not-judged:file-has-overlapping-or-unpaired-notes")
             return o
-        perf = load(spec, raw, tmp, live_object=live)
-        compare_loaded(o, Fl, perf, spec["merge_load"], strict_tracks=True, tempo_sorted=tempo_track_order_sorted(mid))
+        fnz = fnz_applies(spec, Fl)
+        generic = spec["api"] == "generic"
+        o.cls("first-note-at-zero", fnz)
+        o.cls("non-default-pedal-threshold", generic and spec.get("pedal_threshold", 64) != 64)
+        perf = load(spec, raw, tmp, live_object=live, fnz=fnz)
+        n_before = len(o.discs)
+        compare_loaded(
+            o, Fl, perf, spec["merge_load"], strict_tracks=True, tempo_sorted=tempo_track_order_sorted(mid),
+            fnz=fnz, pedal_threshold=spec.get("pedal_threshold") if generic else None,
+        )
+        # ---------------- L saved again: a loaded performance (ticks, ids, key names, time_tick fields) is an
+        # argument of the exporter too; with the same ppq / mpq the second file denotes the same events
+        if spec.get("resave", False) and not fnz and len(o.discs) == n_before and isinstance(perf, Performance):
+            o.cls("loaded-performance-saved-again")
+            compare_resaved(o, Fl, perf, ppq, mpq)
     return o
+
+
+def compare_resaved(o, F1, perf, ppq, mpq):
+    mf2 = call(save_performance_midi, perf, None, mpq=mpq, ppq=ppq)
+    buf = io.BytesIO()
+    call(mf2.save, file=buf)
+    F2 = R.interpret(mido.MidiFile(file=io.BytesIO(buf.getvalue())), merge=False, default_mpq=500000)
+    content = [tr for tr in F1["tracks"] if tr["notes"] or tr["controls"] or tr["programs"]]
+    if F2["ppq"] != ppq or F2["tempo_map"] != [(0, mpq)]:
+        o.add("resave:ppq-or-tempo-wrong", ppq=F2["ppq"], tempo_map=F2["tempo_map"][:4])
+    if len(F2["tracks"]) != len(content):
+        o.add("resave:track-count-wrong", got=len(F2["tracks"]), expected=len(content))
+        return
+    for a, b in zip(content, F2["tracks"]):
+        if b["problems"]:
+            o.add("resave:notes-differ", file_track=b["index"], file_problems=b["problems"][:4])
+            continue
+        na = Counter((n["on"], n["off"], n["pitch"], n["channel"], n["velocity"]) for n in a["notes"])
+        nb = Counter((n["on"], n["off"], n["pitch"], n["channel"], n["velocity"]) for n in b["notes"])
+        if na != nb:
+            o.add("resave:notes-differ", file_track=b["index"], missing=sorted((na - nb).elements())[:6], unexpected=sorted((nb - na).elements())[:6], fields="on_tick, off_tick, pitch, channel, velocity")
+        for field in ("controls", "key_signatures", "time_signatures"):
+            if Counter(a[field]) != Counter(b[field]):
+                o.add("resave:%s-differ" % field.replace("_", "-"), file_track=b["index"], first=sorted(a[field])[:6], second=sorted(b[field])[:6])
+        ma = Counter((t, attrs_key(x)) for t, x in a["meta_other"])
+        mb = Counter((t, attrs_key(x)) for t, x in b["meta_other"])
+        if ma != mb:
+            o.add("resave:meta-events-differ", file_track=b["index"], first=sorted(ma)[:6], second=sorted(mb)[:6])
+        pa, pb = Counter(a["programs"]), Counter(b["programs"])
+        added = list((pb - pa).elements())
+        channels = set(n["channel"] for n in a["notes"]) | set(c[3] for c in a["controls"])
+        # a part without programs gets one program 0 per channel it uses (time not judged)
+        ok_added = not a["programs"] and sorted((prog, ch) for _, prog, ch in added) == sorted((0, ch) for ch in channels)
+        if (pa - pb) or (added and not ok_added) or (not a["programs"] and not added):
+            o.add("resave:programs-differ", file_track=b["index"], first=sorted(a["programs"])[:6], second=sorted(b["programs"])[:6])
 
 
 # ---------------------------------------------------------------------------
@@ -587,15 +791,23 @@ def _oracle_midifile(spec, o):
     notes = [n for tr in F["tracks"] for n in tr["notes"]]
     o.cls("zero-length-note", any(n["on"] == n["off"] for n in notes))
     o.nontrivial = ntr >= 2 or later_tempo
-    if any(tr["problems"] for tr in F["tracks"]) or F["tempo_same_tick"]:
+    o.cls("two-tempo-events-on-one-tick-of-one-track", bool(F["tempo_same_tick"]) and not F["tempo_same_tick_cross_track"])
+    if any(tr["problems"] for tr in F["tracks"]) or F["tempo_same_tick_cross_track"]:
         o.excluded.append("file-outside-domain")
         return o
     if not content:
         o.excluded.append("file-without-notes-controls-programs")
         return o
+    fnz = fnz_applies(spec, F)
+    generic = spec["api"] == "generic"
+    o.cls("first-note-at-zero", fnz)
+    o.cls("path-given-as-pathlib", spec.get("path_type", "str") == "pathlib" and (generic or spec["io"] == "path"))
     with tempfile.TemporaryDirectory(prefix="c06_") as tmp:
-        perf = load(spec, raw, tmp, live_object=mf if spec["io"] == "object" else None)
-        compare_loaded(o, F, perf, spec["merge_load"], strict_tracks=False, tempo_sorted=tsorted)
+        perf = load(spec, raw, tmp, live_object=mf if spec["io"] == "object" else None, fnz=fnz)
+        compare_loaded(
+            o, F, perf, spec["merge_load"], strict_tracks=False, tempo_sorted=tsorted,
+            fnz=fnz, pedal_threshold=spec.get("pedal_threshold") if generic else None,
+        )
     return o
 
 
